@@ -959,3 +959,31 @@ package compiler
 //@   ensures  descended: result.1 == nil ==> ncalls("compiler.(*Visitor).VisitStructField") >= old(ncalls("compiler.(*Visitor).VisitStructField")) + old(len(def.Struct.Fields))
 //@   loop 0:
 //@     invariant counted: ncalls("compiler.(*Visitor).VisitStructField") >= old(ncalls("compiler.(*Visitor).VisitStructField")) + $i + 1
+//
+// C05 - unspec and discriminator mappings: same shape as rename_object's, through the pass's one lookup.
+//@ spec mappingUnspecced(pass, pkg, o, n) = forall k: string :: n.has(k) == o.has(k) && (o.has(k) ==> n[k] == ite(call("compiler.(*Unspec).newNameFor", pass, pkg, o[k]).1, call("compiler.(*Unspec).newNameFor", pass, pkg, o[k]).0, o[k]))
+//@ func (*Unspec).renameInMapping
+//@   property C05
+//@   requires pass != nil
+//@   modifies nothing
+//@   ensures  fresh: result != nil && fresh(result)
+//@   ensures  renamed: mappingUnspecced(pass, pkg, mapping, result)
+//@   loop 0:
+//@     invariant fresh: newMapping != nil && fresh(newMapping)
+//@     invariant done: forall k: string :: newMapping.has(k) == visited(k) && (visited(k) ==> newMapping[k] == ite(call("compiler.(*Unspec).newNameFor", pass, pkg, mapping[k]).1, call("compiler.(*Unspec).newNameFor", pass, pkg, mapping[k]).0, mapping[k]))
+//
+//@ func (*Unspec).processDisjunction
+//@   property C05
+//@   requires pass != nil && visitor != nil && schema != nil && def.Kind == ast.KindDisjunction
+//@   at-call "compiler.(*Visitor).VisitType" branch: $arg0 == visitor && $arg1 == schema && $arg2 == old(def.Disjunction.Branches)[$i + 1]
+//@   ensures  descended: result.1 == nil ==> ncalls("compiler.(*Visitor).VisitType") >= old(ncalls("compiler.(*Visitor).VisitType")) + old(len(def.Disjunction.Branches))
+//@   loop 0:
+//@     invariant counted: ncalls("compiler.(*Visitor).VisitType") >= old(ncalls("compiler.(*Visitor).VisitType")) + $i + 1
+//
+//@ func (*Unspec).processStruct
+//@   property C05
+//@   requires pass != nil && visitor != nil && schema != nil && def.Kind == ast.KindStruct
+//@   at-call "compiler.(*Visitor).VisitStructField" field: $arg0 == visitor && $arg1 == schema && $arg2 == old(def.Struct.Fields)[$i + 1]
+//@   ensures  descended: result.1 == nil ==> ncalls("compiler.(*Visitor).VisitStructField") >= old(ncalls("compiler.(*Visitor).VisitStructField")) + old(len(def.Struct.Fields))
+//@   loop 0:
+//@     invariant counted: ncalls("compiler.(*Visitor).VisitStructField") >= old(ncalls("compiler.(*Visitor).VisitStructField")) + $i + 1
